@@ -67,7 +67,7 @@ def doc : GoVal → JVal
   | .slice _ _ _ es => .arr (docElems es)        -- nil slice: `[]`
   | .array _ _ es => .arr (docElems es)
   | .map _ _ _ es => .obj (docEntries es)        -- nil map: `{}`
-  | .iface _ => .null
+  | .iface _ _ => .null
   | .other _ _ _ _ => .null
 def docFields : Fields → JMembers
   | .nil => .nil
@@ -96,7 +96,7 @@ def inScope : GoVal → Bool
   | .slice _ _ _ es => inScopeElems es
   | .array _ _ es => inScopeElems es
   | .map _ _ _ es => inScopeEntries es
-  | .iface _ => false
+  | .iface _ _ => false
   | .other _ _ _ _ => false
 /-- what a pointer may point to: a struct, or a further pointer to one -/
 def ptrTarget : GoVal → Bool
